@@ -61,7 +61,7 @@ func (g *genState) id() int { g.nextID++; return g.nextID }
 
 func (g *genState) target() (string, bool) {
 	all := append(append([]string{}, g.files...), g.temps...)
-	i := rapid.IntRange(0, len(all)-1).Draw(g.t, "target")
+	i := fw.Range(g.t, "target", 0, len(all)-1)
 	name := all[i]
 	isTemp := i >= len(g.files)
 	if isTemp {
@@ -74,24 +74,24 @@ func (g *genState) leaf() node {
 	t := g.t
 	tn, isTemp := g.target()
 	n := node{ID: g.id(), Kind: "dml", Temp: isTemp}
-	switch rapid.IntRange(0, 11).Draw(t, "leafKind") {
+	switch fw.Range(t, "leafKind", 0, 11) {
 	case 0, 1:
-		n.SQL = fmt.Sprintf("INSERT INTO %s (id, v, s) VALUES (%d, %d, 'i%d')", tn, 100+n.ID, rapid.IntRange(0, 9).Draw(t, "v"), n.ID)
+		n.SQL = fmt.Sprintf("INSERT INTO %s (id, v, s) VALUES (%d, %d, 'i%d')", tn, 100+n.ID, fw.Range(t, "v", 0, 9), n.ID)
 	case 2:
 		src, srcTemp := g.target()
 		n.Temp = n.Temp || srcTemp
 		n.SQL = fmt.Sprintf("INSERT INTO %s (id, v, s) SELECT id + %d, v, s FROM %s WHERE id < 100", tn, 1000*n.ID, src)
 	case 3, 4:
-		n.SQL = fmt.Sprintf("UPDATE %s SET v = v + %d WHERE id %% 2 = %d", tn, rapid.IntRange(1, 3).Draw(t, "inc"), rapid.IntRange(0, 1).Draw(t, "par"))
+		n.SQL = fmt.Sprintf("UPDATE %s SET v = v + %d WHERE id %% 2 = %d", tn, fw.Range(t, "inc", 1, 3), fw.Range(t, "par", 0, 1))
 	case 5:
-		n.SQL = fmt.Sprintf("DELETE FROM %s WHERE id = %d", tn, rapid.IntRange(1, 5).Draw(t, "did"))
+		n.SQL = fmt.Sprintf("DELETE FROM %s WHERE id = %d", tn, fw.Range(t, "did", 1, 5))
 	case 6:
-		n.SQL = fmt.Sprintf("REPLACE INTO %s (id, v, s) USING (id) VALUES (%d, 9, 'r%d')", tn, rapid.IntRange(1, 7).Draw(t, "rid"), n.ID)
+		n.SQL = fmt.Sprintf("REPLACE INTO %s (id, v, s) USING (id) VALUES (%d, 9, 'r%d')", tn, fw.Range(t, "rid", 1, 7), n.ID)
 	case 7:
 		if g.created < 2 && g.depth == 0 {
 			g.created++
 			name := fmt.Sprintf("n%d.csv", g.created)
-			if fw.Chance(t, "createAs", 40) {
+			if fw.Pct(t, "createAs", 40) {
 				src, srcTemp := g.target()
 				n.Temp = srcTemp
 				n.SQL = fmt.Sprintf("CREATE TABLE `%s` (id, v, s) AS SELECT id, v, s FROM %s", name, src)
@@ -107,10 +107,10 @@ func (g *genState) leaf() node {
 	case 8:
 		k := g.added[tn]
 		switch {
-		case k == 0 || fw.Chance(t, "addMore", 30):
+		case k == 0 || fw.Pct(t, "addMore", 30):
 			g.added[tn] = k + 1
 			n.SQL = fmt.Sprintf("ALTER TABLE %s ADD x%d DEFAULT %d", tn, k+1, n.ID)
-		case fw.Chance(t, "drop", 50):
+		case fw.Pct(t, "drop", 50):
 			g.added[tn] = k - 1
 			n.SQL = fmt.Sprintf("ALTER TABLE %s DROP x%d", tn, k)
 		default:
@@ -121,27 +121,27 @@ func (g *genState) leaf() node {
 	case 10:
 		n.Kind, n.SQL, n.Temp = "rollback", "ROLLBACK", false
 	default:
-		n.SQL = fmt.Sprintf("UPDATE %s SET s = 'z%d' WHERE v > %d", tn, n.ID, rapid.IntRange(0, 9).Draw(t, "gt"))
+		n.SQL = fmt.Sprintf("UPDATE %s SET s = 'z%d' WHERE v > %d", tn, n.ID, fw.Range(t, "gt", 0, 9))
 	}
 	return n
 }
 
 func (g *genState) stmts(max int) []node {
 	t := g.t
-	n := rapid.IntRange(1, max).Draw(t, "nstmts")
+	n := fw.Range(t, "nstmts", 1, max)
 	var out []node
 	for i := 0; i < n; i++ {
-		if g.depth < 2 && fw.Chance(t, "block", 15) {
+		if g.depth < 2 && fw.Pct(t, "block", 15) {
 			g.depth++
-			if fw.Chance(t, "isIf", 60) {
-				b := node{ID: g.id(), Kind: "if", Cond: rapid.Bool().Draw(t, "cond")}
+			if fw.Pct(t, "isIf", 60) {
+				b := node{ID: g.id(), Kind: "if", Cond: fw.Pct(t, "cond", 50)}
 				b.Body = g.stmts(3)
-				if fw.Chance(t, "else", 60) {
+				if fw.Pct(t, "else", 60) {
 					b.Else = g.stmts(3)
 				}
 				out = append(out, b)
 			} else {
-				b := node{ID: g.id(), Kind: "while", Loops: rapid.IntRange(0, 2).Draw(t, "loops")}
+				b := node{ID: g.id(), Kind: "while", Loops: fw.Range(t, "loops", 0, 2)}
 				b.Body = g.stmts(3)
 				out = append(out, b)
 			}
@@ -158,9 +158,9 @@ var cellPool = []string{"a", "b", "hello", "x y", "", "42", "Z"}
 func genFile(t *rapid.T) string {
 	var b strings.Builder
 	b.WriteString("id,v,s\n")
-	n := rapid.IntRange(0, 6).Draw(t, "rows")
+	n := fw.Range(t, "rows", 0, 6)
 	for i := 0; i < n; i++ {
-		b.WriteString(fmt.Sprintf("%d,%d,%s\n", i+1, rapid.IntRange(0, 9).Draw(t, "v"), fw.Pick(t, "cell", cellPool)))
+		b.WriteString(fmt.Sprintf("%d,%d,%s\n", i+1, fw.Range(t, "v", 0, 9), fw.PickU(t, "cell", cellPool)))
 	}
 	return b.String()
 }
@@ -170,7 +170,7 @@ var terminators = []string{"end", "end", "error", "error", "error", "exit", "exi
 func genProg(t *rapid.T, withTemps bool) progCase {
 	c := progCase{Files: map[string]string{}}
 	g := &genState{t: t, added: map[string]int{}}
-	g.files = []string{"f1.csv", "f2.csv"}[:rapid.IntRange(1, 2).Draw(t, "nfiles")]
+	g.files = []string{"f1.csv", "f2.csv"}[:fw.Range(t, "nfiles", 1, 2)]
 	for _, f := range g.files {
 		c.Files[f] = genFile(t)
 	}
@@ -178,11 +178,11 @@ func genProg(t *rapid.T, withTemps bool) progCase {
 	c.Files[c.Untouched] = genFile(t)
 	var prog []node
 	if withTemps {
-		nt := rapid.IntRange(1, 2).Draw(t, "ntemps")
+		nt := fw.Range(t, "ntemps", 1, 2)
 		for i := 0; i < nt; i++ {
 			name := fmt.Sprintf("tmp%d", i+1)
 			d := node{ID: g.id(), Kind: "decl", Temp: true}
-			if fw.Chance(t, "tempAs", 60) {
+			if fw.Pct(t, "tempAs", 60) {
 				d.SQL = fmt.Sprintf("DECLARE %s VIEW (id, v, s) AS SELECT id, v, s FROM `%s`", name, g.files[0])
 			} else {
 				d.SQL = fmt.Sprintf("DECLARE %s VIEW (id, v, s)", name)
@@ -194,12 +194,12 @@ func genProg(t *rapid.T, withTemps bool) progCase {
 	}
 	prog = append(prog, g.stmts(9)...)
 	// terminator at a drawn top-level position
-	term := fw.Pick(t, "terminator", terminators)
-	pos := rapid.IntRange(len(c.Temps), len(prog)).Draw(t, "termPos")
+	term := fw.PickU(t, "terminator", terminators)
+	pos := fw.Range(t, "termPos", len(c.Temps), len(prog))
 	var tn *node
 	switch term {
 	case "error":
-		bad := fw.Pick(t, "bad", []string{"SELECT 1 / 0 FROM `" + g.files[0] + "`", "UPDATE `" + g.files[0] + "` SET nosuch = 1", "INSERT INTO `" + g.files[0] + "` (id) VALUES (1, 2)", "TRIGGER ERROR 70 'boom'", "SELECT * FROM `nosuchfile.csv`"})
+		bad := fw.PickU(t, "bad", []string{"SELECT 1 / 0 FROM `" + g.files[0] + "`", "UPDATE `" + g.files[0] + "` SET nosuch = 1", "INSERT INTO `" + g.files[0] + "` (id) VALUES (1, 2)", "TRIGGER ERROR 70 'boom'", "SELECT * FROM `nosuchfile.csv`"})
 		tn = &node{ID: g.id(), Kind: "error", SQL: bad}
 	case "exit":
 		tn = &node{ID: g.id(), Kind: "exit", SQL: "EXIT"}
@@ -213,10 +213,10 @@ func genProg(t *rapid.T, withTemps bool) progCase {
 		prog = append(prog[:pos], append([]node{*tn}, prog[pos:]...)...)
 	}
 	c.Prog = prog
-	if fw.Chance(t, "signal", 45) {
-		c.SignalAt = fw.Pick(t, "signalAt", []string{"stmt", "stmt", "point"})
-		c.SignalIdx = rapid.IntRange(0, 60).Draw(t, "signalIdx")
-		c.Signal = fw.Pick(t, "sig", []string{"INT", "TERM"})
+	if fw.Pct(t, "signal", 45) {
+		c.SignalAt = fw.PickU(t, "signalAt", []string{"stmt", "stmt", "point"})
+		c.SignalIdx = fw.Range(t, "signalIdx", 0, 60)
+		c.Signal = fw.PickU(t, "sig", []string{"INT", "TERM"})
 	}
 	return c
 }
@@ -621,7 +621,7 @@ func countLeavesExecutedFully(ns []node, lv map[int]node) int {
 func TestC01CliPrefix(t *testing.T) {
 	fw.Run(t, fw.Spec[progCase]{
 		ID: "C01", Name: "cli_prefix", Quick: 640, Thorough: 12800,
-		Gen:   func(t *rapid.T) progCase { return genProg(t, fw.Chance(t, "withTemps", 40)) },
+		Gen:   func(t *rapid.T) progCase { return genProg(t, fw.Pct(t, "withTemps", 40)) },
 		Check: checkCLI,
 		Rule: "generated procedures (INSERT VALUES/SELECT, UPDATE, DELETE, REPLACE, CREATE TABLE [AS], ALTER ADD/DROP on 1-2 CSV files, created files and temporary tables; COMMIT/ROLLBACK; nested IF/ELSE and WHILE blocks) with a terminator at a drawn position (normal end, failing statement, EXIT, EXIT 3, trailing ROLLBACK) run by the real binary; every leaf prints a marker, so the executed trace is read from stdout. Oracle: the final directory is byte-identical to the one produced by a reference program consisting only of the statements of the transactions that were committed before the end (rolled-back transactions dropped) + COMMIT; after a normal end: all executed statements + COMMIT. 45% of cases are run again with SIGINT/SIGTERM self-delivered at a drawn statement boundary or lib/file / commit point (old or new complete state admissible). A file never named keeps bytes, inode and mtime. non-trivial = data-changing statements after the last COMMIT with an abnormal end, or a COMMIT followed by further changes; distinct by (terminator, #commits, statement kinds after the last commit, exit code)",
 		Assumptions: []string{"the reference directory is produced by csvq itself from the committed statements only (differential/metamorphic oracle): a defect that affects a statement identically with and without the surrounding uncommitted work is not visible here (C05 covers statement semantics)",
